@@ -193,6 +193,11 @@ impl Metainfo {
             info_hash: Self::calculate_hash(data)?,
         };
 
+        // Piece length is used as divisor
+        if metainfo.piece_length == 0 {
+            return Err(Error::MetaInvalidU64("piece length"));
+        }
+
         Ok(metainfo)
     }
 
